@@ -15,6 +15,9 @@ pub enum ConnKind {
     Http2,
     Http2Hostile,
     Garbage,
+    /// a TLS client talking to a plain-HTTP port: single-segment ClientHello, answered in clear text
+    /// with an HTTP/1.1 error response on the same connection
+    TlsThenHttpResponse,
 }
 
 #[derive(Clone, Debug, Serialize, Deserialize)]
@@ -115,18 +118,28 @@ pub fn build(r: &mut Rng, kind: ConnKind, client: Endpoint, server: Endpoint, o:
             (c, s)
         }
         ConnKind::Http1 => {
-            let rq = http1::request(r, 300);
-            let rs = http1::response(r, 600);
+            let (rq, rs) = if r.chance(1, 8) { (http1::exotic_request(r), http1::exotic_response(r)) } else { (http1::request(r, 300), http1::response(r, 600)) };
             (rq.bytes, rs.bytes)
         }
         ConnKind::Http2 | ConnKind::Http2Hostile => {
             let hostile = if kind == ConnKind::Http2Hostile { *r.pick(&[http2::Hostile::SizeZero, http2::Hostile::SizeZeroThenBogus, http2::Hostile::SizeZeroThenBogus, http2::Hostile::PolluteThenBogus, http2::Hostile::SizeHuge, http2::Hostile::BogusRef, http2::Hostile::Polluter]) } else { http2::Hostile::None };
             let self_ref = kind == ConnKind::Http2 && r.chance(2, 3);
-            let (rq, _) = http2::connection_start(r, &http2::Opts { request: true, hostile, fancy_headers: false, odd_order: false, self_ref, continuation: false });
+            // a connection may announce a large SETTINGS_MAX_FRAME_SIZE (which binds only its peer), and a
+            // connection may contain a frame above the default limit before its HEADERS
+            let announce = kind == ConnKind::Http2Hostile && r.chance(1, 2);
+            let big = if kind == ConnKind::Http2 && r.chance(1, 5) { Some(r.urange(16385, 30000)) } else { None };
+            let (rq, _) = http2::connection_start(r, &http2::Opts { request: true, hostile: if announce { http2::Hostile::None } else { hostile }, fancy_headers: false, odd_order: false, self_ref, continuation: false, big_frame: big, announce_max_frame: announce });
             let hostile_s = if kind == ConnKind::Http2Hostile && r.chance(1, 2) { *r.pick(&[http2::Hostile::SizeZero, http2::Hostile::SizeZeroThenBogus]) } else { http2::Hostile::None };
             let self_ref_s = kind == ConnKind::Http2 && r.chance(1, 2);
-            let (rs, _) = http2::connection_start(r, &http2::Opts { request: false, hostile: hostile_s, fancy_headers: false, odd_order: false, self_ref: self_ref_s, continuation: false });
+            let (rs, _) = http2::connection_start(r, &http2::Opts { request: false, hostile: hostile_s, fancy_headers: false, odd_order: false, self_ref: self_ref_s, continuation: false, big_frame: None, announce_max_frame: false });
             (rq, rs)
+        }
+        ConnKind::TlsThenHttpResponse => {
+            let mut spec = tls::random_spec(r, 900);
+            spec.target_len = spec.target_len.min(900);
+            let c = tls::client_hello(r, &spec);
+            let s = http1::response(r, 100).bytes;
+            (c, s)
         }
         ConnKind::Garbage => {
             let n = r.urange(1, 400);
@@ -134,7 +147,7 @@ pub fn build(r: &mut Rng, kind: ConnKind, client: Endpoint, server: Endpoint, o:
             (r.bytes(n), r.bytes(m))
         }
     };
-    let parts_c = if kind == ConnKind::Tls && o.tls_single_segment { 1 } else { o.max_parts };
+    let parts_c = if (kind == ConnKind::Tls && o.tls_single_segment) || kind == ConnKind::TlsThenHttpResponse { 1 } else { o.max_parts };
     let mut seq_c = isn_c.wrapping_add(1);
     for (a, b) in cut_stream(r, cstream.len(), parts_c) {
         let g = gap(r, &mut t);
@@ -155,6 +168,14 @@ pub fn build(r: &mut Rng, kind: ConnKind, client: Endpoint, server: Endpoint, o:
         let from_client = r.chance(1, 2);
         let (h, a, b, sq, ak, ecr) = if from_client { (&hc, client, server, seq_c, seq_s, hs.tsval(t)) } else { (&hs, server, client, seq_s, seq_c, hc.tsval(t)) };
         steps.push(Step { dt_ns: g, seg: tcp::data(h, a, b, sq, ak, vec![], t, ecr, pkt::ACK) });
+    }
+    // every host has a NIC; frames towards the server carry (server mac, client mac) and vice versa
+    let (cm, sm) = (pkt::mac(r), pkt::mac(r));
+    for st in steps.iter_mut() {
+        let (d, s) = if st.seg.src == client { (sm, cm) } else { (cm, sm) };
+        let mut e = d.to_vec();
+        e.extend_from_slice(&s);
+        st.seg.eth = e;
     }
     Conn { kind, client, server, framing: o.framing, steps, raw_override: vec![] }
 }
